@@ -155,6 +155,24 @@ int h[3] = {1, 2, 3};
 '''
 
 
+
+def check_versions(ctx, sc, o, rep):
+    """in every test invocation at most ONE test case (the one being reduced or reformatted) may hold something that has not
+    been accepted yet; every other one holds its original or a version with which the test has already exited 0"""
+    names = list(o.names)
+    okv = {i: {(c.encode('latin-1') if isinstance(c, str) else c)} for i, (_n, c) in enumerate(sc['files'])}
+    for contents, rc, cwd, _manifest in o.testlog:
+        fresh = [names[i] for i, c in enumerate(contents) if c is not None and c not in okv[i]]
+        if len(fresh) > 1:
+            ctx.violation('stale-sibling', f'a test ran on {dict(zip(names, contents))}: {fresh} all hold contents that were never accepted '
+                          f'(only the file being reduced may)', rep)
+            return
+        if rc == 0:
+            for i, c in enumerate(contents):
+                if c is not None:
+                    okv[i].add(c)
+
+
 def real_passes(ctx, rnd):
     from cvise.passes.lines import LinesPass
     from cvise.passes.line_markers import LineMarkersPass
@@ -181,7 +199,26 @@ def real_passes(ctx, rnd):
             ctx.evaluations += 1
             ctx.count('real-pass:' + name)
             check_invocations(ctx, sc, o, {'real_pass': name, 'k': k}, real=True)
+            check_versions(ctx, sc, o, {'real_pass': name, 'k': k})
             ctx.nontriv(('real', name, k))
+    # the lines pass with a formatter rewrites the user's file in place in new() and must put it back when the test rejects
+    # both reformatted variants: the next file's tests must see the accepted version of the first
+    standin = os.path.join(os.path.dirname(HERE), 'standins', 'topformflat')
+    for arg in ('0', '1', '2'):
+        for layout_sensitive in (True, False):
+            t0 = 'int a;int b;\nint c; { x; y; }\nint d;\n'
+            files = [('t.c', t0), ('d/u.c', 'k1;\nk2;\n')]
+            rules = [([('has', 0, 'int a;int b;\nint c; { x; y; }')], 0)] if layout_sensitive else [([('has', 0, 'int a;')], 0)]
+            sc = {'files': files, 'rules': rules, 'passes': [], 'cfg': {'N': rnd.choice([1, 2]), 'no_cache': True},
+                  'sched': [rnd.randint(0, 7) for _ in range(30)], 'pass_name': f'lines::{arg}', 'max_accepts': 60}
+            p = LinesPass(arg, {'topformflat': standin})
+            p.max_transforms = None
+            o = driver.run_scenario(sc, ctx.tmp, real_passes=[p])
+            ctx.evaluations += 1
+            ctx.count('real-pass:lines-with-formatter')
+            check_invocations(ctx, sc, o, {'real_pass': f'lines::{arg}', 'k': 2}, real=True)
+            check_versions(ctx, sc, o, {'real_pass': f'lines::{arg}', 'k': 2})
+            ctx.nontriv(('real', 'lines-formatter', arg, layout_sensitive))
 
 
 def replay(ctx, payload):
